@@ -361,6 +361,16 @@ def check_derivation_rule(ctx):
     both alternatives of the regex (lower->Upper and ACRONYM->Word)"""
     nt = ctx.model.nodes
     loc = "pymbolic/primitives.py"
+    srcexp = getattr(nt, "derivation_source", None)
+    ok = bool(getattr(nt, "derivation_from_name", False))
+    ctx.ob("N2/derivation/from-class-name", ok,
+           f"pymbolic/primitives.py:{getattr(nt, 'derivation_line', 0)}",
+           "the default handler name is derived from cls.__name__" if ok else
+           f"the default handler name is derived from {srcexp}, not from the "
+           "class's own name: a node class defined inside a function or another "
+           "class (qualified name 'f.<locals>.Foo') gets a handler name no mapper "
+           "can implement and silently falls back to an ancestor's handler")
+
     for name in PROBE_NAMES:
         got = nt.derive_mapper_method(name)
         want = "map_" + _snake(name)
